@@ -591,12 +591,147 @@ def _inline_private_helpers(t: ast.Module) -> None:
             t.body[idx] = R().visit(st)
 
 
+# methods the rules address by name: never dissolved into their callers
+ANCHOR_METHODS = {
+    "__error_check__", "__should_stop__", "__set_keyword_arguments__", "__check_input__", "__check_modes__", "__get_mode__",
+    "__parallelize__", "__run__", "__generate_dict_result__", "__debug_results__", "_fcn", "_init_agent", "_generate_agents",
+    "_init_population", "_greedy_select_population", "_greedy_select_agent", "_extend_and_trim_population",
+    "_replace_and_trim_population", "_generate_group_population", "__set_y__",
+}
+_DUNDERS = {"init", "new", "iter", "len", "getitem", "setitem", "str", "repr", "contains", "call", "eq", "hash", "enter", "exit"}
+
+
+def _arg_ok(e: ast.AST) -> bool:
+    """argument expressions that can be substituted for a parameter: names, attribute chains, constants, constant subscripts"""
+    if isinstance(e, (ast.Name, ast.Constant)):
+        return True
+    if isinstance(e, ast.Attribute):
+        return _arg_ok(e.value)
+    if isinstance(e, ast.Subscript):
+        return _arg_ok(e.value) and (isinstance(e.slice, ast.Constant) or (isinstance(e.slice, ast.UnaryOp) and isinstance(e.slice.operand, ast.Constant))
+                                      or isinstance(e.slice, ast.Name))
+    return False
+
+
+def _inline_single_use_methods(t: ast.Module) -> None:
+    """N15: a private method (leading underscore) that is referenced exactly once in its class, as `self.m(args)` in a statement
+    (`self.m(..)` or `x = self.m(..)`), has no decorators, no early return (only an optional final `return E`) and whose arguments are
+    substitutable expressions, is spliced into its caller (parameters substituted, callee locals renamed on clashes)."""
+    for cls in [n for n in t.body if isinstance(n, ast.ClassDef)]:
+        for _round in range(4):
+            methods = {m.name: m for m in cls.body if isinstance(m, ast.FunctionDef)}
+            done = False
+            for name, callee in methods.items():
+                if not name.startswith("_") or callee.decorator_list or name in ANCHOR_METHODS or \
+                        (name.startswith("__") and name.endswith("__") and name[2:-2] in _DUNDERS):
+                    continue
+                a = callee.args
+                if a.vararg or a.kwarg or a.posonlyargs or not a.args or a.args[0].arg != "self":
+                    continue
+                refs = [n for n in ast.walk(cls) if isinstance(n, ast.Attribute) and n.attr == name and isinstance(n.value, ast.Name) and n.value.id == "self"]
+                if len(refs) != 1:
+                    continue
+                body = [s_ for s_ in callee.body if not (isinstance(s_, ast.Expr) and isinstance(s_.value, ast.Constant))]
+                rets = [x for s_ in body for x in ast.walk(s_) if isinstance(x, ast.Return)]
+                final_ret = body[-1] if body and isinstance(body[-1], ast.Return) else None
+                if any(r is not final_ret for r in rets):
+                    continue
+                if any(isinstance(x, (ast.Yield, ast.YieldFrom, ast.Nonlocal, ast.Global, ast.FunctionDef, ast.Lambda)) for s_ in body for x in ast.walk(s_)):
+                    continue
+                # find the calling statement
+                for caller in methods.values():
+                    if caller is callee:
+                        continue
+                    hit = None
+
+                    def find(stmts):
+                        nonlocal hit
+                        for i_, st in enumerate(stmts):
+                            call = None
+                            if isinstance(st, ast.Expr) and isinstance(st.value, ast.Call):
+                                call = st.value
+                            elif isinstance(st, ast.Assign) and len(st.targets) == 1 and isinstance(st.value, ast.Call):
+                                call = st.value
+                            if call is not None and call.func is refs[0]:
+                                hit = (stmts, i_, st, call)
+                                return
+                            for f in ("body", "orelse", "finalbody"):
+                                bb = getattr(st, f, None)
+                                if isinstance(bb, list) and bb and isinstance(bb[0], ast.stmt):
+                                    find(bb)
+                                    if hit:
+                                        return
+                    find(caller.body)
+                    if not hit:
+                        continue
+                    stmts, i_, st, call = hit
+                    params = [x.arg for x in a.args[1:]] + [x.arg for x in a.kwonlyargs]
+                    defaults = dict(zip([x.arg for x in a.args[1:]][len(a.args) - 1 - len(a.defaults):], a.defaults))
+                    for x, d in zip(a.kwonlyargs, a.kw_defaults):
+                        if d is not None:
+                            defaults[x.arg] = d
+                    bind = {}
+                    pos = [x.arg for x in a.args[1:]]
+                    if len(call.args) > len(pos) or any(isinstance(z, ast.Starred) for z in call.args):
+                        break
+                    for p_, v_ in zip(pos, call.args):
+                        bind[p_] = v_
+                    okk = True
+                    for k in call.keywords:
+                        if k.arg is None or k.arg not in params:
+                            okk = False
+                        else:
+                            bind[k.arg] = k.value
+                    for p_ in params:
+                        if p_ not in bind:
+                            if p_ in defaults:
+                                bind[p_] = defaults[p_]
+                            else:
+                                okk = False
+                    if not okk or not all(_arg_ok(v_) for v_ in bind.values()):
+                        break
+                    # parameters must not be rebound in the callee
+                    stored = {x.id for s_ in body for x in ast.walk(s_) if isinstance(x, ast.Name) and isinstance(x.ctx, (ast.Store, ast.Del))}
+                    if stored & set(params):
+                        break
+                    if isinstance(st, ast.Expr) and final_ret is not None and final_ret.value is not None and not _effect_free(final_ret.value):
+                        pass
+                    caller_names = {x.id for x in ast.walk(caller) if isinstance(x, ast.Name)} | {x.arg for x in caller.args.args}
+                    ren = {n_: f"{n_}__{name.strip('_')}" for n_ in stored if n_ in caller_names}
+
+                    class S(ast.NodeTransformer):
+                        def visit_Name(self, nn):
+                            if nn.id in bind and isinstance(nn.ctx, ast.Load):
+                                return _loc(copy.deepcopy(bind[nn.id]), nn)
+                            if nn.id in ren:
+                                return ast.copy_location(ast.Name(id=ren[nn.id], ctx=nn.ctx), nn)
+                            return nn
+                    new_body = [S().visit(copy.deepcopy(s_)) for s_ in body if s_ is not final_ret]
+                    if final_ret is not None and final_ret.value is not None:
+                        val = S().visit(copy.deepcopy(final_ret.value))
+                        if isinstance(st, ast.Assign):
+                            new_body.append(_loc(ast.Assign(targets=st.targets, value=val), st))
+                        else:
+                            new_body.append(_loc(ast.Expr(value=val), st))
+                    elif isinstance(st, ast.Assign):
+                        new_body.append(_loc(ast.Assign(targets=st.targets, value=ast.Constant(value=None)), st))
+                    stmts[i_:i_ + 1] = new_body or [ast.copy_location(ast.Pass(), st)]
+                    cls.body = [m for m in cls.body if m is not callee]
+                    done = True
+                    break
+                if done:
+                    break
+            if not done:
+                break
+
+
 def normalize_module(tree: ast.Module) -> ast.Module:
     """Returns a canonicalised deep copy of the module tree."""
     t = copy.deepcopy(tree)
     t = _Expr().visit(t)
     if isinstance(t, ast.Module):
         _inline_private_helpers(t)
+        _inline_single_use_methods(t)
     for n in ast.walk(t):
         if isinstance(n, ast.FunctionDef):
             _inline_closures(n)
